@@ -311,7 +311,7 @@ func Main(args []string) {
 		common.Fatalf("read: %v", err)
 	}
 	// supervised children: a process fault (e.g. a call through a dangling table entry) is attributed to the history
-	results := common.Supervise("link-child", nil, lines, 180*time.Second, 12)
+	results := common.SuperviseRetry("link-child", nil, lines, 180*time.Second, 12)
 	for i := range results {
 		r := &results[i]
 		if !r.OK && (r.Key == "crash" || r.Key == "hang") {
